@@ -403,7 +403,7 @@ func c03CheckCases(ctx *Ctx, res *Result, cases []c03Case, count bool) {
 		path := "/tmp/" + c.Base
 		reqs[i] = c03EncodeCase(c, path, r.Lines)
 	}
-	ans, err := runOracle(ctx, "c03", reqs)
+	ans, err := c03RunOracle(ctx, reqs) // = runOracle, long requests in parallel (c03_sizes.go)
 	if err != nil {
 		res.Broken = err.Error()
 		return
@@ -418,7 +418,7 @@ func c03CheckCases(ctx *Ctx, res *Result, cases []c03Case, count bool) {
 		sreq = append(sreq, consRequest(0, c.Content, impl[i].entries, impl[i].r.Disk))
 		sidx = append(sidx, i)
 	}
-	sans, err := runOracle(ctx, "c03", sreq)
+	sans, err := c03RunOracle(ctx, sreq)
 	if err != nil {
 		res.Broken = err.Error()
 		return
@@ -461,6 +461,7 @@ func c03CheckCases(ctx *Ctx, res *Result, cases []c03Case, count bool) {
 				for _, e := range im.entries {
 					res.Count("U.logged."+string(e.Kind), 1)
 				}
+				c03CountSizes(res, "U", im.entries)
 			}
 			if im.r.Disk != c.Content {
 				res.Count("U.files_rewritten", 1)
@@ -578,6 +579,7 @@ func c03Unit(ctx *Ctx, res *Result, rng *Rng) {
 		n = 100000
 	}
 	var cases []c03Case
+	sizedGenerated := map[int]int{}
 	for i := 0; i < n; i++ {
 		r := rng.Fork()
 		plist := r.Chance(35)
@@ -586,15 +588,30 @@ func c03Unit(ctx *Ctx, res *Result, rng *Rng) {
 			base = "PLIST"
 		}
 		content := c03GenFile(r, plist)
+		// 10 % of the scripts: one operation with a text of a boundary length (c03_sizes.go)
+		var sized *c03Sized
+		if r.Chance(10) {
+			sized = c03NewSized(r, sizedGenerated[-1], plist, ctx.Tier)
+			sizedGenerated[-1]++
+			sizedGenerated[sized.Class]++
+			content = sized.Content(r, content)
+		}
 		mode := uint32(0o644)
 		if r.Chance(15) {
 			mode = 0o755
 		}
 		// the lines as the real loader sees them, to aim the operations
 		probe := pkglint.VerifAutofixScript(false, false, nil, base, mode, content, nil)
-		evs := c03GenEvents(r, probe.Lines, plist, mode)
+		var evs []pkglint.VerifC03Event
+		if sized != nil {
+			evs = sized.Events(r, probe.Lines, plist, mode)
+		} else {
+			evs = c03GenEvents(r, probe.Lines, plist, mode)
+		}
 		var only []string
-		if r.Chance(20) {
+		if sized != nil {
+			only = sized.Only(r, evs)
+		} else if r.Chance(20) {
 			only = []string{Pick(r, []string{"Diag one", "Other", "thing", "sorted before", "Silent", "nothing matches", "executable", "Should not be"})}
 			if r.Chance(30) {
 				only = append(only, Pick(r, []string{"Diag", "SilentAutofixFormat", "zzz"}))
@@ -602,6 +619,9 @@ func c03Unit(ctx *Ctx, res *Result, rng *Rng) {
 		}
 		for _, m := range [][2]bool{{false, false}, {false, true}, {true, false}, {true, true}} {
 			if m[0] && m[1] && !r.Chance(30) {
+				continue
+			}
+			if sized != nil && sized.SkipMode(m[0], m[1]) {
 				continue
 			}
 			cases = append(cases, c03Case{Autofix: m[0], Show: m[1], Only: only, Base: base, Mode: mode, Content: content, Events: evs})
@@ -621,6 +641,7 @@ func c03Unit(ctx *Ctx, res *Result, rng *Rng) {
 			return
 		}
 	}
+	c03UnitSizeFloors(ctx, res, sizedGenerated)
 }
 
 func c03HasEvent(c c03Case, kind string) bool {
